@@ -24,6 +24,35 @@ namespace vg
         bool overrides = true;
         size_t mesh_max_side = 6;
         bool only_queen = false;  // raster: queen connectivity only (thread-sanitizer build)
+        size_t large_side = 0;    // > max_side: ~3% of the rasters/profiles get a side up to this value
+    };
+
+    // Per-node byte source: the case's byte buffer for small grids; for large grids (> 600 nodes) a
+    // small linear congruential generator seeded from 8 bytes of the buffer, so that a case with
+    // thousands of nodes does not need thousands of bytes (still a pure function of the bytes).
+    struct NodeBytes
+    {
+        Src& s;
+        bool large;
+        uint64_t state = 0;
+        NodeBytes(Src& src, size_t n)
+            : s(src)
+            , large(n > 600)
+        {
+            if (large)
+                state = s.u64() | 1;
+        }
+        uint8_t u8()
+        {
+            if (!large)
+                return s.u8();
+            state = state * 6364136223846793005ULL + 1442695040888963407ULL;
+            return static_cast<uint8_t>(state >> 56);
+        }
+        bool chance(unsigned num)
+        {
+            return u8() > 255 - num;
+        }
     };
 
     inline double spacing_value(Src& s)
@@ -65,6 +94,8 @@ namespace vg
             sp.rows = 1;
             size_t big = s.chance(40);
             sp.cols = big ? s.range(2, o.profile_max) : s.range(2, std::min<size_t>(12, o.profile_max));
+            if (o.large_side > 0 && s.chance(8))
+                sp.cols = s.range(o.profile_max, o.large_side * 8);
             sp.dx = spacing_value(s);
             sp.dy = 1;
             sp.uniform_border_ctor = s.chance(40);
@@ -94,6 +125,15 @@ namespace vg
             };
             sp.rows = side();
             sp.cols = side();
+            if (o.large_side > hi && s.chance(8))
+            {
+                // occasionally a large grid (real elevation models are large; size-dependent
+                // code paths: block partitions, scratch-array growth, high basin degrees)
+                sp.rows = s.range(hi + 1, o.large_side);
+                sp.cols = s.coin() ? s.range(hi + 1, o.large_side) : s.range(lo, hi);
+                if (s.coin())
+                    std::swap(sp.rows, sp.cols);
+            }
             sp.dy = spacing_value(s);
             sp.dx = spacing_value(s);
             sp.uniform_border_ctor = s.chance(30);
@@ -344,6 +384,7 @@ namespace vg
             info->family = fam;
             info->name = names[cls];
         }
+        NodeBytes nbts(s, n);
         double xmax = 0, ymax = 0;
         for (size_t i = 0; i < n; ++i)
         {
@@ -371,7 +412,7 @@ namespace vg
                 for (size_t i = 0; i < k; ++i)
                     pal[i] = level_value(s, fam);
                 for (auto& e : z)
-                    e = pal[s.u8() % k];
+                    e = pal[nbts.u8() % k];
                 break;
             }
             case 2:
@@ -379,7 +420,7 @@ namespace vg
                 double scale = fam == 1 ? 5e-324 : (fam == 2 ? 1e148 : 1.0);
                 size_t amp = 1 + s.u8() % 16;
                 for (auto& e : z)
-                    e = static_cast<double>(s.u8() % amp) * scale;
+                    e = static_cast<double>(nbts.u8() % amp) * scale;
                 break;
             }
             case 3:
@@ -400,7 +441,7 @@ namespace vg
                 size_t off = s.u8();
                 for (size_t i = 0; i < n; ++i)
                     if ((i + off) % pit_every == 0)
-                        z[i] -= depth + static_cast<double>((i * 7) % 3) * (s.coin() ? 0.25 : 0.0);
+                        z[i] -= depth + static_cast<double>((i * 7) % 3) * ((nbts.u8() & 1) ? 0.25 : 0.0);
                 if (fam == 1)
                     for (auto& e : z)
                         e *= 5e-324;
@@ -427,7 +468,7 @@ namespace vg
                 double fx = 1 + s.u8() % 3, fy = 1 + s.u8() % 3;
                 double noise = static_cast<double>(s.u8() % 4) * 0.1;
                 for (size_t i = 0; i < n; ++i)
-                    z[i] = std::sin(fx * m.x[i] / xmax * 3.1) * std::cos(fy * m.y[i] / ymax * 3.1) + noise * (static_cast<double>(s.u8()) / 255.0);
+                    z[i] = std::sin(fx * m.x[i] / xmax * 3.1) * std::cos(fy * m.y[i] / ymax * 3.1) + noise * (static_cast<double>(nbts.u8()) / 255.0);
                 if (fam == 2)
                     for (auto& e : z)
                         e *= 1e149;
@@ -435,8 +476,15 @@ namespace vg
             }
             case 6:
             {
-                for (auto& e : z)
-                    e = raw_double(s);
+                if (nbts.large)
+                {
+                    // raw bit patterns need 8 bytes per node: large grids get integer noise instead
+                    for (auto& e : z)
+                        e = static_cast<double>(nbts.u8() % 7);
+                }
+                else
+                    for (auto& e : z)
+                        e = raw_double(s);
                 break;
             }
             default:
@@ -480,8 +528,9 @@ namespace vg
         if (cls == 1)
         {
             unsigned dens = 20 + s.u8() % 60;
+            NodeBytes nb2(s, n);
             for (auto& e : mask)
-                e = s.chance(dens);
+                e = nb2.chance(dens);
         }
         else if (cls == 2 || cls == 3)
         {
@@ -571,8 +620,9 @@ namespace vg
             if (cls == 1)
             {
                 unsigned dens = 10 + s.u8() % 80;
+                NodeBytes nb3(s, n);
                 for (size_t i = 0; i < n; ++i)
-                    if ((allow_masked || !masked(i)) && s.chance(dens))
+                    if ((allow_masked || !masked(i)) && nb3.chance(dens))
                         bl.push_back(i);
             }
             else if (cls == 2)
